@@ -1,9 +1,11 @@
 (* C17 — correspondence: for each harness type and handle the typeInfo flags and handle facts
    are read through the verif hook (VerifTypeFlagsOf), the checkExt argument is the one
    encoder.fn / decoder.fn pass (translated), and the mechanism Gen.Choice picks is compared
-   with the kind of user hook that was observed to run at top level. *)
+   with the kind of user hook that was observed to run at top level.  Since the value classes (nil,
+   empty, ...) are swept, the step before the lookup (Gen/ChoicePre.v, translated from encodeValue /
+   decodeValue) comes first: a nil map / slice / chan leaves there and no hook runs. *)
 From Coq Require Import List NArith Bool.
-From Verif Require Import Gen.Choice C17.Model.
+From Verif Require Import Gen.Choice Gen.ChoicePre C17.Model C17.ModelPre.
 Import ListNotations.
 
 Record case := mkcase {
@@ -13,7 +15,12 @@ Record case := mkcase {
   cencb : bool;   (* typeInfo.flagEncBuiltin / flagDecBuiltin of the type, read through the hook *)
   cdecb : bool;
   o_enc : N;      (* which custom hook ran during Encode: 0 none, 1 ext, 2 selfer, 3 binary, 4 json, 5 text *)
-  o_dec : N }.
+  o_dec : N;
+  (* the step before the lookup (Gen/ChoicePre.v): the kind of X, rvIsNil, NilCollectionToZeroLength, element type uint8 *)
+  ckind : kind;
+  cnil : bool;
+  cnz : bool;
+  cu8 : bool }.
 
 Definition hookclass (m : mech) : N :=
   match m with
@@ -23,8 +30,8 @@ Definition hookclass (m : mech) : N :=
 
 Definition check_case (c : case) : bool :=
   (* the observation is made at top level, value passed by value *)
-  N.eqb (hookclass (enc_mech_at PTop (cencb c) (cfenc c))) (o_enc c) &&
-  N.eqb (hookclass (dec_mech_at PTop (cdecb c) (cfdec c))) (o_dec c).
+  N.eqb (enc_hook_top (ckind c) (cnil c) (cnz c) (cu8 c) (cencb c) (cfenc c)) (o_enc c) &&
+  N.eqb (dec_hook_top (ckind c) (cnil c) (cnz c) (cu8 c) (cdecb c) (cfdec c)) (o_dec c).
 
 Definition mismatches (cs : list case) : list N :=
   map cid (filter (fun c => negb (check_case c)) cs).
